@@ -304,7 +304,13 @@ func runL1(args []string) {
 			}
 		}
 		if !getBool(sh.resp, "agree") {
-			rep.addMismatch(l1Finding(sh, "mismatch", "model and implementation disagree", true))
+			f := l1Finding(sh, "mismatch", "model and implementation disagree", true)
+			if a, ok := sh.resp["affects"].([]any); ok {
+				for _, x := range a {
+					f.Affects = append(f.Affects, fmt.Sprint(x))
+				}
+			}
+			rep.addMismatch(f)
 			if !anyHolds {
 				unexplained = append(unexplained, sh)
 			}
